@@ -24,7 +24,8 @@ RULES["C15"] = (
     "is_watertight, is_winding_consistent, volume>0, euler number, body_count; closed-form volume/area/centre of mass/inertia "
     "and vertex set of the straight-section revolution of the profile polygon, of the prism over the polygon, of the box "
     "(rtol 1e-9 + conditioning); curved shapes on the smooth surface, below the smooth volume and above a rigorous 1/n^2 bound; "
-    "primitive analytic overrides; stateful: sequences of parameter edits / apply_transform on a primitive, after each of which "
+    "primitive analytic overrides; stateful: sequences of parameter edits / apply_transform (similarities, and reflections with or "
+    "without uniform scale: clean ValueError with the primitive unchanged, or the mirror image with positive parameters) on a primitive, after each of which "
     "mesh and measures equal those of a fresh primitive built from the reported parameters, and the reported parameters equal a "
     "model of the edits. Non-trivial: non-default parameters with a non-identity placement (creation / primitive), or >=2 edits "
     "with a read in between (stateful)."
@@ -588,24 +589,12 @@ def ring_count_about_axis(m, M, radius):
     return int(np.sum(np.abs(z - z0) <= 1e-9 * (1 + abs(z0))))
 
 
-@body("C15.primitive")
-def b_primitive(case, ctx):
-    kind, p, place = case["kind"], case["p"], norm_place(case["place"])
-    pc = place_cls(place)
-    cls = [f"primitive:{kind}:{pc}", f"placement:{pc}"]
-    if kind in ("Cylinder", "Capsule"):
-        cls.append(f"primitive:{kind}:sections={sec_cls(p['sections'], False)}")
-    if kind == "Extrusion":
-        cls.append("primitive:Extrusion:height<0" if p["height"] < 0 else "primitive:Extrusion:height>0")
-    ctx.note(nontrivial=pc not in ("none", "identity"), cls=cls)
-    sig = f"C15.primitive|{kind}|{pc}"
+def check_primitive_state(P, kind, p, M, sig, rings=None):
+    """A primitive with parameters p (all lengths positive, height of an Extrusion signed) and orthogonal placement M:
+    its mesh is a valid solid with the closed-form vertex set and measures, and the analytic overrides agree."""
     with np.errstate(all="ignore"):
-        P = make_prim(kind, p, place["M"], case.get("via_center", False))
-        M = np.eye(4) if place["M"] is None else np.array(place["M"], dtype=np.float64)
-        if kind == "Sphere":
-            M = np.eye(4) if place["M"] is None else np.array(place["M"], dtype=np.float64)
         m = P.to_mesh()
-        euler = 2 - 2 * len(p["polygon"]["holes"]) if kind == "Extrusion" else 2
+        euler = 2 - 2 * (len(rings) - 1) if kind == "Extrusion" else 2
         check_valid(m, sig, euler)
         check_valid(P, sig + "|primitive_object", euler)
         check(np.array_equal(np.asarray(P.vertices), np.asarray(m.vertices)) and np.array_equal(np.asarray(P.faces), np.asarray(m.faces)), sig + "|to_mesh_differs", "")
@@ -658,7 +647,6 @@ def b_primitive(case, ctx):
             check_vertices_bounds(m, ref, sig, "Capsule mesh")
             check_measures(m, ref, sig, "Capsule mesh")
         elif kind == "Extrusion":
-            rings = G.build_rings(p["polygon"])
             ref = O.place(O.prism(rings, p["height"]), M)
             check_vertices_bounds(m, ref, sig, "Extrusion mesh", optional=np.tile(collinear_mask(rings), 2))
             check_measures(m, ref, sig, "Extrusion mesh")
@@ -669,6 +657,25 @@ def b_primitive(case, ctx):
         if kind == "Cylinder":
             n = ring_count_about_axis(m, M, p["radius"])
             check(n == p["sections"], "C15.primitive|Cylinder|sections_ignored", f"Cylinder(sections={p['sections']}) has {n} facets in circle")
+
+
+@body("C15.primitive")
+def b_primitive(case, ctx):
+    kind, p, place = case["kind"], case["p"], norm_place(case["place"])
+    pc = place_cls(place)
+    cls = [f"primitive:{kind}:{pc}", f"placement:{pc}"]
+    if kind in ("Cylinder", "Capsule"):
+        cls.append(f"primitive:{kind}:sections={sec_cls(p['sections'], False)}")
+    if kind == "Extrusion":
+        cls.append("primitive:Extrusion:height<0" if p["height"] < 0 else "primitive:Extrusion:height>0")
+    ctx.note(nontrivial=pc not in ("none", "identity"), cls=cls)
+    sig = f"C15.primitive|{kind}|{pc}"
+    with np.errstate(all="ignore"):
+        P = make_prim(kind, p, place["M"], case.get("via_center", False))
+        M = np.eye(4) if place["M"] is None else np.array(place["M"], dtype=np.float64)
+        if kind == "Sphere":
+            M = np.eye(4) if place["M"] is None else np.array(place["M"], dtype=np.float64)
+        check_primitive_state(P, kind, p, M, sig, rings=G.build_rings(p["polygon"]) if kind == "Extrusion" else None)
 
 
 # ------------------------------------------------------------------------------------------- stateful
@@ -724,6 +731,7 @@ def compare_fresh(P, kind, sig_tail, hist):
         if not ok:
             raise Violation(f"C15.stateful|{kind}|stale|{sig_tail}|{name}", f"after {hist}: {name} of the edited primitive differs from a fresh {kind}({ {k: (v.tolist() if isinstance(v, np.ndarray) else str(v)[:60]) for k, v in rep.items()} })")
     check(a["volume"] > 0 and float(P.to_mesh().volume) > 0, f"C15.stateful|{kind}|volume_sign|{sig_tail}", f"after {hist}")
+    positive_parameters(P, kind, f"C15.stateful|{kind}|{sig_tail}")
 
 
 def scalars(P, kind):
@@ -733,6 +741,50 @@ def scalars(P, kind):
 def hash_collision(P, kind, last):
     now = scalars(P, kind)
     return any(now[k] != last[k] and hash(now[k]) == hash(last[k]) for k in now)
+
+
+def positive_parameters(P, kind, sig):
+    pr = P.primitive
+    for k in ("radius", "height", "extents"):
+        if k in PARAMS[kind] and not (kind == "Extrusion" and k == "height"):
+            v = np.asarray(getattr(pr, k), dtype=np.float64)
+            check(bool(np.all(v > 0)), sig + f"|parameter_not_positive|{k}", f"{k} = {v.tolist()}")
+    for k in ("sections",):
+        if k in PARAMS[kind]:
+            check(int(getattr(pr, k)) >= 3, sig + f"|parameter_not_positive|{k}", f"{k} = {getattr(pr, k)}")
+    check(float(P.volume) > 0, sig + "|analytic_volume_sign", f"volume {P.volume}")
+    check(float(P.area) > 0, sig + "|analytic_area_sign", f"area {P.area}")
+    b = np.asarray(P.bounds, dtype=np.float64)
+    check(bool(np.all(b[1] > b[0])), sig + "|bounds_inverted", f"bounds {b.tolist()}")
+
+
+def state_check(P, kind, sig, ctx):
+    """the primitive as it stands: positive parameters, orthogonal placement, mesh and analytic values equal to the
+    closed forms of those parameters (same clauses as C15.primitive); only inside the documented length range"""
+    positive_parameters(P, kind, sig)
+    rep = reported(P, kind)
+    T = rep["transform"]
+    L = T[:3, :3]
+    check(np.abs(L @ L.T - np.eye(3)).max() <= 1e-8 and np.abs(T[3] - [0, 0, 0, 1]).max() <= 1e-12, sig + "|transform_not_rigid", f"transform {T.tolist()}")
+    p = {k: (v.tolist() if isinstance(v, np.ndarray) else v) for k, v in rep.items() if k not in ("transform", "polygon")}
+    rings = None
+    if kind == "Extrusion":
+        poly = rep["polygon"]
+        rings = [np.array(poly.exterior.coords)[:-1, :2]] + [np.array(i.coords)[:-1, :2] for i in poly.interiors]
+        lengths = [abs(p["height"]), float(np.ptp(rings[0], axis=0).max())]
+    else:
+        lengths = [float(x) for k in ("radius", "height", "extents") if k in p for x in np.atleast_1d(p[k])]
+    if min(lengths) < 1e-2 or max(lengths) > 1e3:
+        ctx.note(cls="stateful:state_check:outside_length_range")
+        return
+    if kind in ("Cylinder", "Capsule") and min(lengths) * p["radius"] * math.sin(math.pi / p["sections"]) < 4 * G.MIN_TRI_AREA:
+        ctx.note(cls="stateful:state_check:outside_length_range")
+        return
+    if kind == "Capsule" and min(lengths) < 0.2:
+        ctx.note(cls="stateful:state_check:outside_length_range")
+        return
+    ctx.note(cls="stateful:state_check")
+    check_primitive_state(P, kind, p, T, sig + "|state", rings=rings)
 
 
 def is_sim_scale(M):
@@ -806,6 +858,35 @@ def b_stateful(case, ctx):
                 for k in ("radius", "height", "extents"):
                     if k in before and kind != "Extrusion":
                         expect[k] = before[k] * s
+                state_check(P, kind, f"C15.stateful|{kind}|apply_transform", ctx)
+            elif op == "apply_mirror":
+                # a reflection (times a uniform scale): either a clean ValueError that leaves the primitive unchanged,
+                # or the primitive now is the mirror image: positive parameters scaled by |det|^(1/3), image mesh
+                M = np.array(o["M"], dtype=np.float64)
+                s = is_sim_scale(M)
+                old_mesh = np.array(P.vertices, dtype=np.float64)
+                old_vol = float(P.volume)
+                try:
+                    P.apply_transform(M)
+                    accepted = True
+                except ValueError:
+                    accepted = False
+                ctx.note(cls="stateful:mirror:" + ("accepted" if accepted else "rejected"))
+                if not accepted:
+                    expect = {k: v for k, v in before.items() if k != "polygon"}
+                else:
+                    for k in ("radius", "height", "extents"):
+                        if k in before and kind != "Extrusion":
+                            expect[k] = before[k] * s
+                    expect["center"] = M[:3, :3] @ before["transform"][:3, 3] + M[:3, 3]
+                    msig = f"C15.stateful|{kind}|apply_mirror"
+                    positive_parameters(P, kind, msig)
+                    check(abs(float(P.volume) - s**3 * old_vol) <= 1e-9 * s**3 * abs(old_vol), msig + "|volume", f"after {hist + [op]}: volume {P.volume} vs |det| x {old_vol}")
+                    if kind != "Sphere":
+                        want = old_mesh @ M[:3, :3].T + M[:3, 3]
+                        ok, msg = O.match_point_sets(np.asarray(P.vertices), want, 1e-9 * (1 + np.abs(want).max()))
+                        check(ok, msig + "|mesh_not_image", f"after {hist + [op]}: the mesh is not the mirror image of the previous mesh: {msg}")
+                    state_check(P, kind, msig, ctx)
             elif op == "apply_reject":
                 M = np.array(o["M"], dtype=np.float64)
                 try:
@@ -836,6 +917,8 @@ def b_stateful(case, ctx):
                 last_read = scalars(P, kind)
         collided = collided or hash_collision(P, kind, last_read)
         compare_fresh(P, kind, ("set_height|pyhash_collision|" if collided else "") + "final|" + (ops[-1]["op"] if ops else "none"), hist)
+        if not collided:
+            state_check(P, kind, f"C15.stateful|{kind}|final", ctx)
 
 
 # ------------------------------------------------------------------------------------------- sub-checks
@@ -907,7 +990,7 @@ def s_primitive(ctx):
     ctx.given("C15.primitive", G.primitive_case(), n={"quick": 700, "thorough": 20000})
 
 
-@subcheck("C15", "stateful", shards={"quick": 4, "thorough": 12})
+@subcheck("C15", "stateful", shards={"quick": 6, "thorough": 12})
 def s_stateful(ctx):
     ctx.given("C15.stateful", G.stateful_case(), n={"quick": 700, "thorough": 20000})
 
@@ -988,4 +1071,8 @@ REQUIRED_CLASSES["C15"] = [
     "stateful:op:set_sections",
     "stateful:op:set_polygon",
     "stateful:pyhash_collision",
+    "stateful:op:apply_mirror",
+    "stateful:mirror:accepted",
+    "stateful:mirror:rejected",
+    "stateful:state_check",
 ]
